@@ -20,11 +20,14 @@ REPO = os.environ.get("DREYE_REPO", "/repo")
 class Violation(Exception):
     """The property does not hold on this case (as judged by the oracle)."""
 
-    def __init__(self, label: str, message: str = "", observed: Any = None):
+    def __init__(self, label: str, message: str = "", observed: Any = None, exact: bool = False):
         super().__init__(f"{label}: {message}")
         self.label = label          # bucket key inside the sub-check
         self.message = message
         self.observed = observed    # JSON-able detail for the replay file
+        # exact = the oracle compares two runs of the same solver on the same problem (two routes to one call): an unconverged
+        # solver cannot excuse a difference, so the runner never qualifies such a violation as "explicit-solver-unconverged"
+        self.exact = exact
 
 
 class HarnessError(Exception):
